@@ -507,3 +507,14 @@ def replay(w, rec):
         run_rel(rec, random.Random(0), w["cell"], w["rel"], w["decls"], None, seams)
     finally:
         seams.uninstall()
+
+
+# workloads added after the seventh round of seeded changes (DESIGN section 9): part of the rule of this check
+_RULE_ADDENDUM = 'relations with Parameter coefficients re-probed on the same problem after Parameter.set()'
+_info_base = info
+
+
+def info(tier):  # noqa: F811
+    d = _info_base(tier)
+    d["rule"] = d["rule"] + "; " + _RULE_ADDENDUM
+    return d
